@@ -324,6 +324,35 @@ def all_nodes(node, out):
 
 
 # ---------------------------------------------------------------- judging
+def mixed_line_ends(ctx, parser, text, case):
+    """the same text as it looks after an editor on another system touched some of its lines: every other line ends
+    with CR LF. For a str text the CR is a trailing blank of its line (never a token). Whatever the tree is - every
+    node returns exactly the characters between its own start and end"""
+    parts = text.split("\n")
+    mixed = "".join(ln + ("\r\n" if k % 2 == 0 else "\n") for k, ln in enumerate(parts[:-1])) + parts[-1]
+    try:
+        tree = parser.parse(mixed, do_cleanup=False)
+    except llparser.Error:
+        ctx.count("texts_with_mixed_line_ends_refused(not judged)")
+        return
+    ctx.count("texts_with_mixed_line_ends_parsed")
+    nodes = []
+    all_nodes(tree, nodes)
+    for node in nodes:
+        if node.start_pos is None or node.end_pos is None:
+            continue
+        try:
+            got = node.get_orig_text(mixed)
+        except Exception as err:
+            ctx.violation("get-orig-text-raises", {"type": type(err).__name__, "msg": str(err)[:100], "line_ends": "mixed"}, case)
+            return
+        want = slice_text(mixed, node.start_pos.coords, node.end_pos.coords)
+        if got != want:
+            ctx.violation("get-orig-text-of-inner-node" if not node.is_leaf() else "get-orig-text-of-leaf",
+                          {"node": node.name, "got": got[:60], "expected": want[:60], "line_ends": "mixed CR LF / LF"}, case)
+            return
+
+
 def judge(ctx, cfg_id, pieces, form, case):
     cfg = CONFIGS[cfg_id]
     parser = get_parser(cfg_id, case.get("smart", True))
@@ -432,6 +461,8 @@ def judge(ctx, cfg_id, pieces, form, case):
     except llparser.Error as err:
         ctx.violation("valid-text-rejected", {"type": type(err).__name__, "msg": str(err)[:200]}, case)
         return
+    if form == "str" and text.count("\n") >= 2 and len(text) % 3 == 0:
+        mixed_line_ends(ctx, parser, text, case)
     exp_leaves = [s for s in stream if s[0] not in skip]
     order = []  # leaves and empty nodes in document order
     n_asked = [0]
